@@ -126,7 +126,14 @@ def reduce_binary_polynomial(poly: BinaryPolynomial) -> Tuple[
          [(frozenset({0, 1}), '0*1')])
     """
 
+    return _reduce_binary_polynomial(poly, ())
+
+
+def _reduce_binary_polynomial(poly, reserved):
+    # `reserved`: labels the new product variables must also differ from
+    # (the variables of a model the reduction is going to be added to)
     variables = poly.variables
+    variables.update(reserved)
     constraints = []
 
     reduced_terms = []
@@ -254,7 +261,7 @@ def make_quadratic_cqm(poly: Union[Polynomial, BinaryPolynomial],
     cqm = cqm or ConstrainedQuadraticModel()
     vartype = vartype or poly.vartype
     poly = _init_binary_polynomial(poly, vartype)
-    reduced_terms, constraints = reduce_binary_polynomial(poly)
+    reduced_terms, constraints = _reduce_binary_polynomial(poly, cqm.variables)
 
     def var(x):
         return BinaryQuadraticModel({x: 1.0}, {}, 0.0, vartype)
@@ -309,7 +316,8 @@ def make_quadratic(poly: Union[Polynomial, BinaryPolynomial], strength: float,
     poly = _init_binary_polynomial(poly, vartype)
 
     variables = set().union(*poly)
-    reduced_terms, constraints = reduce_binary_polynomial(poly)
+    variables.update(bqm.variables)  # new names must not collide with the given model either
+    reduced_terms, constraints = _reduce_binary_polynomial(poly, bqm.variables)
     variables.update(p for _, p in constraints)  # auxiliaries must not collide with products
 
     for (u, v), p in constraints:
